@@ -378,6 +378,13 @@ def report_regions(chk, regions, tag=""):
         for ok, desc, node, etext in r.block_clips:
             if ok:
                 chk.ok("block-clip", desc, detail="every value path is clipped against the total")
+            elif " passed to " in desc:
+                chk.violation("block-clip", rel, r.func.name, "possibly negative block length passed to an unsigned "
+                              "parameter", r.tu.line_of(node),
+                              "%s: `%s`. With a ceil split the clipped length N - ip is negative for the surplus threads "
+                              "when the problem is small relative to the team; as a signed loop bound that means no "
+                              "work, as an unsigned argument the callee sweeps far beyond the thread's block. Expected "
+                              "`if (len > 0)` around the call, or a signed parameter" % (desc, etext), instance=desc)
             else:
                 chk.violation("block-clip", rel, r.func.name, "block bound of a ceil split by the thread count not "
                               "clipped against the total", r.tu.line_of(node),
@@ -741,6 +748,11 @@ def mutants(tree):
                     expect="shared-store",
                     fn=_in_func(FS, "SDMXeval_loop", "ao_loc, buf, ao + aoff * Ngrids + ip, coord + ip,",
                                 "ao_loc, buf, ao + aoff * Ngrids, coord + ip,")))
+    m.append(Mutant("possibly negative clipped block length handed to a size_t parameter (SDMXcontract_ao_to_bas)", FS,
+                    expect="block-clip",
+                    fn=_in_func(FS, "SDMXcontract_ao_to_bas", "                    for (g = 0; g < bgrids; g++) {\n"
+                                "                        _vbas[g] = 0;\n                    }\n",
+                                "                    _dset0(_vbas, ngrids, bgrids, 1);\n")))
     m.append(Mutant("callback run by the parallel driver stores to a global (GTOcontract_flapl0)", FL,
                     expect="callback-global",
                     fn=_in_func(FL, "GTOcontract_flapl0", "    double *my_spline = SPLINE + l * 4 * SPLINE_SIZE;\n",
